@@ -161,3 +161,32 @@ def _c01_cancel(params, inputs, observed):
     u = observed['u']
     err = max(abs(u[i] - float(sum(gu[i][k] * Fraction(a[k]) for k in range(n)))) for i in range(n))
     return err <= 4 * tol * scale
+
+
+@predicate('c03_energy_sum_matches_definition')
+def _c03_energy(params, inputs, observed):
+    """the library value IS the defining rectangle-rule sum  sum_i a_i * v_i * dt  over the reference response (so the
+    negative value comes from the definition, which is not sign-definite when the record does not end at rest / the
+    step under-resolves the oscillator), not from a malfunction of the summation."""
+    from fractions import Fraction
+    from vf.oracles import sdof_ref
+    if 'ein' not in observed:
+        return False
+    n = params['n']
+    dt = params['dt']
+    xi = params['xi']
+    a = [float(inputs['a[%d]' % i]) for i in range(n)]
+    ok = False
+    for p, T in enumerate(params['periods']):
+        T = float(T)
+        if T == 0:
+            continue
+        gu, gv, w = sdof_ref.impulse_table(T, xi, dt, n)
+        v = [float(sum(gv[i][k] * Fraction(a[k]) for k in range(n))) for i in range(n)]
+        want = sum(a[i] * v[i] * dt for i in range(n))
+        scale = sum(abs(a[i] * v[i]) * dt for i in range(n)) + 1e-300
+        if abs(observed['ein'][p] - want) > 1e-5 * scale:
+            return False
+        if observed['ein'][p] < 0:
+            ok = True
+    return ok
